@@ -36,8 +36,10 @@ namespace
                 auto subArr = it.data<d_array>();
                 if (subArr->size() == 2)
                 {
-                    auto& key = subArr->at(0);
+                    auto key = subArr->at(0);
                     auto& value = subArr->at(1);
+                    // Keys are captured by value: later changes to an array used as key must not reach the map
+                    if (key.is<t_array>()) { key = sqf::runtime::value(key.data<d_array>()->copy_deep()); }
                     // ToDo: Check key-type matches
                     hashmap[key] = value;
                 }
@@ -67,8 +69,10 @@ namespace
         auto arr = right.data<d_array>();
         if (arr->size() == 2)
         {
-            auto& key = arr->at(0);
+            auto key = arr->at(0);
             auto& value = arr->at(1);
+            // Keys are captured by value: later changes to an array used as key must not reach the map
+            if (key.is<t_array>()) { key = sqf::runtime::value(key.data<d_array>()->copy_deep()); }
             // ToDo: Check key-type matches
             data->map()[key] = value;
         }
@@ -127,7 +131,8 @@ namespace
         auto data = right.data<d_hashmap>();
         for (auto& it : data->map())
         {
-            keys.push_back(it.first);
+            // hand out copies, the stored keys must stay as they were inserted
+            keys.push_back(it.first.is<t_array>() ? sqf::runtime::value(it.first.data<d_array>()->copy_deep()) : it.first);
         }
         return std::make_shared<d_array>(keys);
     }
